@@ -203,6 +203,7 @@ class Executor:
         self.keep = []
         self.assume_pc_hook = None
         self.quots = {}
+        self._vars_cache = {}
         from . import stubs as _st
         self.stub_prefixes = list(_st.DEFAULT_PREFIX_STUBS)
 
@@ -694,6 +695,52 @@ class Executor:
         self.stats['unknown'] += 1
         return 'unknown', None
 
+    def _vars(self, e):
+        k = e.get_id()
+        v = self._vars_cache.get(k)
+        if v is None:
+            seen = set()
+            out = set()
+            stack = [e]
+            while stack:
+                t = stack.pop()
+                i = t.get_id()
+                if i in seen:
+                    continue
+                seen.add(i)
+                if z3.is_const(t) and t.decl().kind() == z3.Z3_OP_UNINTERPRETED:
+                    out.add(i)
+                else:
+                    stack.extend(t.children())
+            v = frozenset(out)
+            if len(self._vars_cache) > 200000:
+                self._vars_cache.clear()
+            self._vars_cache[k] = v
+            self.keep.append(e)
+        return v
+
+    def independent_slice(self, pc, cond):
+        """constraints of pc that (transitively) share a variable with cond; the remaining constraints
+        are satisfiable on their own (path invariant) and cannot influence the answer"""
+        want = set(self._vars(cond))
+        if not want:
+            return list(pc)
+        items = [(c, self._vars(c)) for c in pc]
+        chosen = [False] * len(items)
+        changed = True
+        while changed:
+            changed = False
+            for i, (c, vs) in enumerate(items):
+                if not chosen[i] and (not vs or vs & want):
+                    if vs:
+                        chosen[i] = True
+                        if not vs <= want:
+                            want |= vs
+                            changed = True
+                    else:
+                        chosen[i] = True
+        return [c for (c, vs), ch in zip(items, chosen) if ch]
+
     def decide(self, st, cond):
         """decide a possibly symbolic boolean on the current path (forks when both feasible)"""
         if isinstance(cond, bool):
@@ -717,7 +764,7 @@ class Executor:
             return False
         # model-guided
         mv = None
-        if st.model is not None:
+        if st.model is not None and not self.slice_pc:
             try:
                 e = st.model.eval(c, model_completion=True)
                 if z3.is_true(e):
@@ -726,25 +773,26 @@ class Executor:
                     mv = False
             except z3.Z3Exception:
                 mv = None
+        pcs = self.independent_slice(st.pc, c) if self.slice_pc else st.pc
         if mv is True:
-            r2, m2 = self.check(st.pc + [z3.Not(c)])
+            r2, m2 = self.check(pcs + [z3.Not(c)])
             if r2 == 'unsat':
                 st.choices.append(True)
                 return True
             self._fork_models = (st.model, m2)
             raise ForkRequest(c)
         if mv is False:
-            r1, m1 = self.check(st.pc + [c])
+            r1, m1 = self.check(pcs + [c])
             if r1 == 'unsat':
                 st.choices.append(False)
                 return False
             self._fork_models = (m1, st.model)
             raise ForkRequest(c)
-        r1, m1 = self.check(st.pc + [c])
+        r1, m1 = self.check(pcs + [c])
         if r1 == 'unsat':
             st.choices.append(False)
             return False
-        r2, m2 = self.check(st.pc + [z3.Not(c)])
+        r2, m2 = self.check(pcs + [z3.Not(c)])
         if r2 == 'unsat':
             st.choices.append(True)
             if m1 is not None:
@@ -763,7 +811,13 @@ class Executor:
     def real_div(self, st, a, b):
         """REAL domain a/b with symbolic b: fork on b==0 (event), else fresh quotient"""
         bz = q(b)
-        if self.decide(st, bz == 0):
+        if self.div_no_fork:
+            # the quotient is only defined for a non-zero divisor: this path silently assumes it
+            st.add(bz != 0)
+            if not st.data.get('assumed_nonzero_divisor'):
+                st.data['assumed_nonzero_divisor'] = True
+                st.event('assumed-nonzero-divisor', where=self.where(st))
+        elif self.decide(st, bz == 0):
             st.event('fdiv-by-zero', where=self.where(st))
             if self.div0_mode == 'end':
                 raise PathEnd('div0', self.where(st))
@@ -783,6 +837,8 @@ class Executor:
         return hit
 
     div0_mode = 'nan'
+    div_no_fork = False
+    slice_pc = True
 
     def where(self, st):
         f = st.frames[-1]
@@ -1026,6 +1082,13 @@ class Executor:
                 if is_z3(d):
                     return d
                 return d & mask(bits)
+        if isinstance(a, Bits) and isinstance(b, Bits) and isinstance(a.val, Ptr) and isinstance(b.val, Ptr) \
+                and op == 'sub':
+            # distance between pointers into different objects (e.g. begin/end of a container whose
+            # representation is not modelled): arbitrary
+            st.event('opaque-pointer-difference', where=self.where(st))
+            self.fresh_cnt += 1
+            return z3.BitVec('ptrdiff!%d' % self.fresh_cnt, bits)
         raise Unsupported('integer op %s on reinterpreted value %r %r' % (op, a, b))
 
     def bool_op(self, op, a, b):
